@@ -85,6 +85,25 @@ def cycles(tier, rng):
     for (m1, p) in ((8, P(2, 10, 5, m=4, length=5)), (4, P(2, 20, 5, m=8, length=20)), (4, P(2, 10, 5, m=4, length=5)), (8, P(2, 20, 5, m=8, length=20))):
         for base in (gen.encode_exec(p), gen.decode_exec(p, rng.sample(range(p.n), p.k), finish=True, probe="end")):
             execs.append(base[:1] + ["setctrl 0 1024 %d 2" % m1] + base[1:])
+    # the smallest accepted configurations, all of them: "accepted => usable" for every (k, n-k, N1) corner of the
+    # LDPC construction (k = 1, N1 = n-k, even/odd N1, n-k odd/even) and every small Reed-Solomon code
+    small = []
+    for k in range(1, 5 if q else 7):
+        for n1 in range(3, 8 if q else 10):
+            for r in range(n1, n1 + (4 if q else 6)):
+                small.append(P(3, k, r, N1=n1, seed=rng.choice([1, 2, rng.randint(1, 2 ** 31 - 2)])))
+    for n in range(2, 7 if q else 10):
+        for k in range(1, n):
+            small += [P(1, k, n - k), P(2, k, n - k, m=4), P(2, k, n - k, m=8)]
+    for p in small:
+        execs.append(gen.encode_exec(p, slots=rng.choice(["buf", "null"])))
+        reps = list(range(p.k, p.n))
+        rng.shuffle(reps)
+        if p.codec == 3:
+            execs.append(gen.decode_exec(p, reps, finish=True, probe="end"))                       # repair symbols only
+            execs.append(gen.decode_exec(p, sorted(rng.sample(range(p.n), min(p.n, p.k + 1))), api="setavail", finish=True, probe="end"))
+        else:
+            execs.append(gen.decode_exec(p, rng.sample(range(p.n), p.k), finish=rng.choice([True, False]), probe="end"))
     for p in pts:
         execs.append(gen.encode_exec(p))
         enc = gen.encode_exec(p)
